@@ -3,7 +3,7 @@ CONSTANTS
   Depth = 1
   MaxMut = 1
   Mode = "base"
-  ModelIds = {"hier", "mixin", "param_8_32"}
+  ModelIds = {"mixin", "param_8_32"}
 INVARIANT InstanceTyped
 INVARIANT RoundTrip
 INVARIANT Monotone
